@@ -163,8 +163,21 @@ pub fn core(seed: u64) -> Program {
     let mws: Vec<u32> = (100..100 + nmw).collect();
     let cap = g.rng.pick(&CAPS);
     let name = if g.rng.chance(50) { "store".to_string() } else { format!("s{}", g.rng.below(3)) };
-    let builder = g.canonical_builder(&name, cap, Policy::Block, &reds, &mws);
-    let stores = vec![StoreCfg { builder, droppable: false, stepper: None, ctor: 0 }];
+    // mostly the blocking policy (what C01-C03 quantify over); sometimes a drop policy, under which
+    // the same oracles hold for the surviving actions
+    let policy = match g.rng.below(20) {
+        0 => Policy::DropOldest,
+        1 => Policy::DropLatest,
+        _ => Policy::Block,
+    };
+    let mut builder = g.canonical_builder(&name, cap, policy, &reds, &mws);
+    // the plain constructors instead of the builder, where they can express the configuration
+    let mut ctor = 0;
+    if nred == 1 && nmw == 0 && cap == 16 && policy == Policy::Block && g.rng.chance(50) {
+        ctor = if name == "store" { 1 } else { 2 };
+        builder = vec![BCall::WithName(name.clone()), BCall::WithReducer(0)];
+    }
+    let stores = vec![StoreCfg { builder, droppable: false, stepper: None, ctor }];
     let nsub = g.rng.below(4) as usize;
     let mut subs = vec![];
     let mut main = vec![Op::Build { store: 0 }];
